@@ -58,6 +58,25 @@ def rich_id(draw, kind: str = "any"):
     return s
 
 
+GENE_PUNCT = ".-:/'\"="
+
+
+@st.composite
+def rich_gene_id(draw):
+    """Gene identifiers restricted to the characters the rule parser documents (see C08)."""
+    cls = draw(st.sampled_from(["plain", "plain", "digit", "keyword", "punct", "punct"]))
+    base = draw(st.text(alphabet=string.ascii_letters + string.digits + "_", min_size=1, max_size=5))
+    if cls == "plain":
+        return "g" + base
+    if cls == "digit":
+        return draw(st.sampled_from("0123456789")) + base
+    if cls == "keyword":
+        return draw(st.sampled_from(PY_KEYWORDS))
+    ch = draw(st.text(alphabet=GENE_PUNCT, min_size=1, max_size=2))
+    pos = draw(st.integers(0, len(base)))
+    return base[:pos] + ch + base[pos:]
+
+
 def unique_ids(n_strategy, elem, taken=()):
     return st.lists(elem, min_size=0, max_size=8, unique=True)
 
@@ -160,7 +179,7 @@ def model_spec(
         gene_ids = plain_ids("g", draw(st.integers(min_genes, max_genes))) if gprs else []
     else:
         met_ids = draw(st.lists(rich_id(), min_size=nm, max_size=nm, unique=True))
-        gene_ids = draw(st.lists(rich_id().filter(lambda s: s not in ("and", "or")), min_size=min_genes, max_size=max_genes, unique=True)) if gprs else []
+        gene_ids = draw(st.lists(rich_gene_id().filter(lambda s: s not in ("and", "or", "AND", "OR") and "__COBRA_" not in s and "__cobra_escape__" not in s), min_size=min_genes, max_size=max_genes, unique=True)) if gprs else []
     comps = ["c", "e"] if (exchange_rich or draw(st.booleans())) else ["c"]
     if rich_meta and draw(st.booleans()):
         comps = comps + [draw(st.sampled_from(["p", "m", "C_x", "nuc"]))]
